@@ -1,4 +1,321 @@
-import Operon.Model.Chaperone
+import Operon.Lemmas.C11
+/-!
+# C11 — output validator: 'valid' implies the schema holds; clean JSON is taken verbatim
+
+Property theorems only.  Model: `Operon/Model/Chaperone.lean`, tied to
+`operon_ai/organelles/chaperone.py` by the environment-recording correspondence of `harness/vf/props/c11.py`
+(the real `Chaperone` runs with recording wrappers around `json.loads`, `re.findall`, `re.sub`,
+`schema.model_validate` and `_coerce_types_tracked`; the model must make exactly the recorded calls and reach
+the same observation).
+
+Every statement quantifies over **every** environment `env` (any behaviour of those library functions,
+including raising any exception class), every raw text, every constructor and per-call strategy list
+(any order, any subset, duplicates, empty) and every prior state of the statistics counters.
+
+`Derived env raw s d` (Lemmas) says how the JSON value `d` was obtained from the raw text under strategy `s`:
+strict — `json.loads(raw.strip())`; extraction — `json.loads(m.strip())` for a match `m` of one of the five
+extraction patterns in `raw`; repair — `json.loads` of the ten-step repair chain applied to `raw.strip()`;
+lenient — the coercion helper applied to a non-null value that is present in `raw` in one of the first two senses.
+-/
 namespace Operon.Chaperone
-theorem c11_placeholder : (1 : Nat) = 1 := rfl
+
+variable {J S C : Type}
+
+/-! ## a concrete environment for the non-vacuity examples
+
+The text `{}` parses to the JSON value `1`, which validates to the structure `7`; `[]` parses to `2`, which
+the schema rejects; nothing else parses.  Pattern 3 (bare object) finds `{}` inside `x{}`. -/
+
+def toyEnv : Env Nat Nat Nat where
+  loads t := if t = [123, 125] then .ok 1 else if t = [91, 93] then .ok 2 else .raise .jsonDecode
+  isNone _ := false
+  findall i t := if i = 3 ∧ t = [120, 123, 125] then .ok [[123, 125]] else .ok []
+  sub _ t := .ok t
+  validate d := if d = 1 then .ok 7 else .raise .validation
+  coerce d := .ok (d, [])
+
+/-- ` {} ` (clean JSON with surrounding blanks), `x{}` (JSON inside prose), `[]` (JSON the schema rejects) -/
+def rawClean : Text := [32, 123, 125, 32]
+def rawProse : Text := [120, 123, 125]
+def rawBad : Text := [91, 93]
+
+/-! ## No raw text makes folding raise -/
+
+/-- `fold` and `fold_enhanced` always return a result object: whatever the library functions do (return
+    anything, raise anything, on any call), no exception leaves the strategy cascade. -/
+theorem c11_total (env : Env J S C) (cfg : Cfg) (st : Stats) (raw : Text) (call : List Strategy) :
+    (∃ r, (fold env cfg st raw call).res = .ok r) ∧ (∃ r, (foldX env cfg st raw call).res = .ok r) := by
+  rcases foldBoth_spec env cfg st raw call with ⟨tr, _, hx, hp⟩ | ⟨tpre, pre, s, post, x, _, _, _, _, hx, hp⟩
+  · exact ⟨⟨_, by rw [hp]⟩, ⟨_, by rw [hx]⟩⟩
+  · exact ⟨⟨_, by rw [hp]⟩, ⟨_, by rw [hx]⟩⟩
+
+/-! ## 'valid' implies validated, and obtained from the raw text -/
+
+/-- Whenever `fold_enhanced` reports valid, the returned structure is the result of a successful
+    `schema.model_validate d`, where `d` was obtained from the raw text in the way of the strategy that is reported
+    as used (`Derived`), that strategy is one of the requested ones, no error trace is set, and the very last
+    library call made is that successful `model_validate` (nothing touches the structure afterwards). -/
+theorem c11_valid_is_validated_enhanced (env : Env J S C) (cfg : Cfg) (st st' : Stats) (raw : Text)
+    (call : List Strategy) (r : FoldedX S C)
+    (h : (foldX env cfg st raw call).res = .ok (st', r)) (hv : r.valid = true) :
+    ∃ s ∈ effective cfg call, ∃ d v, r.struct = some v ∧ env.validate d = .ok v ∧ Derived env raw s d ∧
+      r.strategyUsed = some s ∧ r.err = none ∧
+      (foldX env cfg st raw call).trace.getLast? = some (.validate d (.ok v)) := by
+  rcases foldBoth_spec env cfg st raw call with ⟨tr, _, hx, _⟩ | ⟨tpre, pre, s, post, x, hstrs, _, hr, hxv, hx, _⟩
+  · rw [hx] at h; simp at h; obtain ⟨_, rfl⟩ := h; simp at hv
+  · obtain ⟨d, v, hshape, hval, hder, hend⟩ := attemptX_valid env raw s x hr hxv
+    rw [hx] at h ⊢
+    simp at h
+    obtain ⟨_, rfl⟩ := h
+    refine ⟨s, by simp [hstrs], d, v, ?_, hval, hder, ?_, ?_, (hend.append_left tpre).getLast?⟩
+    · cases s <;> simp only [SuccessShape] at hshape
+      · rw [hshape]
+      · obtain ⟨i, _, hs⟩ := hshape; rw [hs]
+      · obtain ⟨cs, hs⟩ := hshape; rw [hs]
+      · obtain ⟨ns, hs⟩ := hshape; rw [hs]
+    · cases s <;> simp only [SuccessShape] at hshape
+      · rw [hshape]
+      · obtain ⟨i, _, hs⟩ := hshape; rw [hs]
+      · obtain ⟨cs, hs⟩ := hshape; rw [hs]
+      · obtain ⟨ns, hs⟩ := hshape; rw [hs]
+    · cases s <;> simp only [SuccessShape] at hshape
+      · rw [hshape]; rfl
+      · obtain ⟨i, _, hs⟩ := hshape; rw [hs]; rfl
+      · obtain ⟨cs, hs⟩ := hshape; rw [hs]; rfl
+      · obtain ⟨ns, hs⟩ := hshape; rw [hs]; rfl
+
+example : ∃ st' r, (foldX toyEnv ⟨[]⟩ Stats.zero rawProse []).res = .ok (st', r) ∧ r.valid = true ∧
+    r.struct = some 7 ∧ r.strategyUsed = some .extraction := ⟨_, _, rfl, rfl, rfl, rfl⟩
+
+/-- The same for the plain `fold`: valid ⇒ the structure is the result of a successful `model_validate d` with
+    `d` derived from the raw text by one of the requested strategies, no error trace, and the last library call
+    is that `model_validate`. -/
+theorem c11_valid_is_validated (env : Env J S C) (cfg : Cfg) (st st' : Stats) (raw : Text)
+    (call : List Strategy) (r : Folded S)
+    (h : (fold env cfg st raw call).res = .ok (st', r)) (hv : r.valid = true) :
+    ∃ s ∈ effective cfg call, ∃ d v, r.struct = some v ∧ env.validate d = .ok v ∧ Derived env raw s d ∧
+      r.err = none ∧ (fold env cfg st raw call).trace.getLast? = some (.validate d (.ok v)) := by
+  rcases foldBoth_spec env cfg st raw call with ⟨tr, _, _, hp⟩ | ⟨tpre, pre, s, post, x, hstrs, _, hr, hxv, _, hp⟩
+  · rw [hp] at h; simp at h; obtain ⟨_, rfl⟩ := h; simp at hv
+  · obtain ⟨d, v, hshape, hval, hder, hend⟩ := attemptX_valid env raw s x hr hxv
+    rw [hp] at h ⊢
+    simp at h
+    obtain ⟨_, rfl⟩ := h
+    refine ⟨s, by simp [hstrs], d, v, ?_, hval, hder, rfl, (hend.append_left tpre).getLast?⟩
+    cases s <;> simp only [SuccessShape] at hshape
+    · rw [hshape]
+    · obtain ⟨i, _, hs⟩ := hshape; rw [hs]
+    · obtain ⟨cs, hs⟩ := hshape; rw [hs]
+    · obtain ⟨ns, hs⟩ := hshape; rw [hs]
+
+example : ∃ st' r, (fold toyEnv ⟨[]⟩ Stats.zero rawProse []).res = .ok (st', r) ∧ r.valid = true ∧
+    r.struct = some 7 := ⟨_, _, rfl, rfl, rfl⟩
+
+/-- Every entry of the call trace is a genuine call: the result recorded next to an argument is what the
+    environment answers for that argument (so statements about the trace are statements about the library). -/
+theorem c11_trace_faithful (env : Env J S C) (cfg : Cfg) (st : Stats) (raw : Text) (call : List Strategy) :
+    (∀ c ∈ (foldX env cfg st raw call).trace, c.Faithful env) ∧
+    (∀ c ∈ (fold env cfg st raw call).trace, c.Faithful env) := by
+  have hx := faithful_foldX env cfg st raw call
+  refine ⟨hx, ?_⟩
+  rcases foldBoth_spec env cfg st raw call with ⟨tr, _, h1, h2⟩ | ⟨tpre, pre, s, post, x, _, _, _, _, h1, h2⟩
+  · intro c hc; rw [h2] at hc; apply hx; rw [h1]; exact hc
+  · intro c hc; rw [h2] at hc; apply hx; rw [h1]; exact hc
+
+/-! ## 'invalid' carries no structure and an error trace -/
+
+/-- When `fold_enhanced` reports invalid: no structure, the error trace is the "All n folding strategies
+    failed" message with n the number of strategies requested, confidence 0, no strategy reported as used, and
+    exactly one failed attempt is recorded per requested strategy, in order. -/
+theorem c11_invalid_has_no_structure_and_a_trace_enhanced (env : Env J S C) (cfg : Cfg) (st st' : Stats)
+    (raw : Text) (call : List Strategy) (r : FoldedX S C)
+    (h : (foldX env cfg st raw call).res = .ok (st', r)) (hv : r.valid = false) :
+    r.struct = none ∧ r.err = some (.allFailed (effective cfg call).length) ∧ r.confidence = 0 ∧
+    r.strategyUsed = none ∧ r.attempts.map (·.strategy) = effective cfg call ∧
+    (∀ a ∈ r.attempts, a.success = false) := by
+  rcases foldBoth_spec env cfg st raw call with ⟨tr, _, hx, _⟩ | ⟨tpre, pre, s, post, x, _, _, _, hxv, hx, _⟩
+  · rw [hx] at h; simp at h; obtain ⟨_, rfl⟩ := h
+    refine ⟨rfl, rfl, rfl, rfl, ?_, ?_⟩
+    · simp [failRec, Function.comp_def]
+    · intro a ha; simp [failRec] at ha; obtain ⟨s, _, rfl⟩ := ha; rfl
+  · rw [hx] at h; simp at h; obtain ⟨_, rfl⟩ := h; simp [hxv] at hv
+
+example : ∃ st' r, (foldX toyEnv ⟨[]⟩ Stats.zero rawBad []).res = .ok (st', r) ∧ r.valid = false ∧
+    r.err = some (.allFailed 4) ∧ r.attempts.length = 4 := ⟨_, _, rfl, rfl, rfl, rfl⟩
+
+/-- When `fold` reports invalid: no structure, and the error trace is the "All n folding strategies failed"
+    message with n the number of strategies requested. -/
+theorem c11_invalid_has_no_structure_and_a_trace (env : Env J S C) (cfg : Cfg) (st st' : Stats)
+    (raw : Text) (call : List Strategy) (r : Folded S)
+    (h : (fold env cfg st raw call).res = .ok (st', r)) (hv : r.valid = false) :
+    r.struct = none ∧ r.err = some (.allFailed (effective cfg call).length) := by
+  rcases foldBoth_spec env cfg st raw call with ⟨tr, _, _, hp⟩ | ⟨tpre, pre, s, post, x, _, _, _, _, _, hp⟩
+  · rw [hp] at h; simp at h; obtain ⟨_, rfl⟩ := h; exact ⟨rfl, rfl⟩
+  · rw [hp] at h; simp at h; obtain ⟨_, rfl⟩ := h; simp at hv
+
+example : ∃ st' r, (fold toyEnv ⟨[]⟩ Stats.zero rawBad [.strict, .repair]).res = .ok (st', r) ∧ r.valid = false ∧
+    r.err = some (.allFailed 2) := ⟨_, _, rfl, rfl, rfl⟩
+
+/-- Both folds echo the raw text they were given. -/
+theorem c11_raw_is_echoed (env : Env J S C) (cfg : Cfg) (st : Stats) (raw : Text) (call : List Strategy) :
+    (∀ st' r, (fold env cfg st raw call).res = .ok (st', r) → r.raw = raw) ∧
+    (∀ st' r, (foldX env cfg st raw call).res = .ok (st', r) → r.raw = raw) := by
+  rcases foldBoth_spec env cfg st raw call with ⟨tr, _, hx, hp⟩ | ⟨tpre, pre, s, post, x, _, _, _, _, hx, hp⟩
+  · constructor <;> intro st' r h
+    · rw [hp] at h; simp at h; obtain ⟨_, rfl⟩ := h; rfl
+    · rw [hx] at h; simp at h; obtain ⟨_, rfl⟩ := h; rfl
+  · constructor <;> intro st' r h
+    · rw [hp] at h; simp at h; obtain ⟨_, rfl⟩ := h; rfl
+    · rw [hx] at h; simp at h; obtain ⟨_, rfl⟩ := h; rfl
+
+/-! ## Clean JSON is taken verbatim by the strict strategy -/
+
+/-- If the raw text is already schema-valid JSON (`json.loads(raw.strip())` gives `d` and `model_validate d`
+    gives `v`) and STRICT is the first requested strategy, then `fold_enhanced` makes exactly those two library
+    calls and nothing else (no regex, no repair, no coercion touches the text), and returns valid with
+    structure `v`, confidence 1, no coercions, strategy STRICT and a single successful attempt. -/
+theorem c11_strict_takes_clean_json_verbatim_enhanced (env : Env J S C) (cfg : Cfg) (st : Stats) (raw : Text)
+    (call rest : List Strategy) (d : J) (v : S)
+    (hl : env.loads (strip raw) = .ok d) (hval : env.validate d = .ok v)
+    (hfirst : effective cfg call = .strict :: rest) :
+    foldX env cfg st raw call =
+      ⟨[.loads (strip raw) (.ok d), .validate d (.ok v)],
+       .ok (⟨st.total + 1, st.successful + 1, bump st.succ .strict, bump st.att .strict⟩,
+            ⟨true, some v, raw, none, [⟨.strict, true, none⟩], 1, [], some .strict⟩)⟩ := by
+  unfold foldX
+  rw [hfirst]
+  unfold loopX
+  simp [attemptX, foldStrictX_clean env raw d v hl hval]
+
+example : effective ⟨[]⟩ [] = .strict :: [.extraction, .lenient, .repair] ∧
+    toyEnv.loads (strip rawClean) = .ok 1 ∧ toyEnv.validate 1 = .ok 7 := ⟨rfl, rfl, rfl⟩
+
+/-- The same for the plain `fold`: exactly the two calls, valid, structure `v`, no error trace. -/
+theorem c11_strict_takes_clean_json_verbatim (env : Env J S C) (cfg : Cfg) (st : Stats) (raw : Text)
+    (call rest : List Strategy) (d : J) (v : S)
+    (hl : env.loads (strip raw) = .ok d) (hval : env.validate d = .ok v)
+    (hfirst : effective cfg call = .strict :: rest) :
+    fold env cfg st raw call =
+      ⟨[.loads (strip raw) (.ok d), .validate d (.ok v)],
+       .ok (⟨st.total + 1, st.successful + 1, bump st.succ .strict, bump st.att .strict⟩,
+            ⟨true, some v, raw, none⟩)⟩ := by
+  unfold fold
+  rw [hfirst]
+  unfold loopP
+  have h : foldStrict env raw = ⟨[.loads (strip raw) (.ok d), .validate d (.ok v)], .ok ⟨true, some v, none⟩⟩ := by
+    rw [foldStrict_eq, foldStrictX_clean env raw d v hl hval]; rfl
+  simp [attemptP, h]
+
+example : (fold toyEnv ⟨[.strict]⟩ Stats.zero rawClean []).trace =
+    [.loads [123, 125] (.ok 1), .validate 1 (.ok 7)] := rfl
+
+/-- The default configuration (no constructor strategies, no per-call strategies) starts with STRICT, so the
+    two theorems above apply to it. -/
+theorem c11_default_starts_with_strict (call : List Strategy) (hc : call = []) :
+    effective ⟨[]⟩ call = .strict :: [.extraction, .lenient, .repair] := by
+  subst hc; rfl
+
+/-- Schema-valid JSON is never rejected when STRICT is among the requested strategies, wherever it stands
+    in the list (an earlier strategy may have accepted the text first, but the fold is valid). -/
+theorem c11_clean_json_is_accepted (env : Env J S C) (cfg : Cfg) (st : Stats) (raw : Text)
+    (call : List Strategy) (d : J) (v : S)
+    (hl : env.loads (strip raw) = .ok d) (hval : env.validate d = .ok v)
+    (hmem : .strict ∈ effective cfg call) :
+    (∀ st' r, (fold env cfg st raw call).res = .ok (st', r) → r.valid = true) ∧
+    (∀ st' r, (foldX env cfg st raw call).res = .ok (st', r) → r.valid = true) := by
+  rcases foldBoth_spec env cfg st raw call with ⟨tr, hf, _, _⟩ | ⟨tpre, pre, s, post, x, _, _, _, hxv, hx, hp⟩
+  · have := hf .strict hmem ⟨true, some v, none, 1, [], some .strict⟩
+      (by simp [attemptX, foldStrictX_clean env raw d v hl hval])
+    simp at this
+  · constructor <;> intro st' r h
+    · rw [hp] at h; simp at h; obtain ⟨_, rfl⟩ := h; rfl
+    · rw [hx] at h; simp at h; obtain ⟨_, rfl⟩ := h; exact hxv
+
+example : Strategy.strict ∈ effective ⟨[.repair, .strict]⟩ [] := by decide
+
+/-! ## The plain and enhanced folds agree -/
+
+/-- On the same chaperone state, raw text and strategies, `fold` and `fold_enhanced` make exactly the same
+    library calls in the same order, leave the same statistics, and agree on validity, structure and echoed
+    raw text. -/
+theorem c11_plain_and_enhanced_agree (env : Env J S C) (cfg : Cfg) (st : Stats) (raw : Text)
+    (call : List Strategy) :
+    (fold env cfg st raw call).trace = (foldX env cfg st raw call).trace ∧
+    ∃ st' p x, (fold env cfg st raw call).res = .ok (st', p) ∧ (foldX env cfg st raw call).res = .ok (st', x) ∧
+      p.valid = x.valid ∧ p.struct = x.struct ∧ p.raw = x.raw := by
+  rcases foldBoth_spec env cfg st raw call with ⟨tr, _, hx, hp⟩ | ⟨tpre, pre, s, post, x, _, _, _, hxv, hx, hp⟩
+  · rw [hx, hp]; exact ⟨rfl, _, _, _, rfl, rfl, rfl, rfl, rfl⟩
+  · rw [hx, hp]; exact ⟨rfl, _, _, _, rfl, rfl, hxv.symm, rfl, rfl⟩
+
+/-! ## Confidence -/
+
+/-- The confidence reported by `fold_enhanced` lies in [0, 1]; it is 1 exactly when the fold is valid through
+    the STRICT strategy; it is 0 exactly when the fold is invalid. -/
+theorem c11_confidence_unit_and_one_only_strict (env : Env J S C) (cfg : Cfg) (st st' : Stats) (raw : Text)
+    (call : List Strategy) (r : FoldedX S C) (h : (foldX env cfg st raw call).res = .ok (st', r)) :
+    0 ≤ r.confidence ∧ r.confidence ≤ 1 ∧
+    (r.confidence = 1 ↔ (r.valid = true ∧ r.strategyUsed = some .strict)) ∧
+    (r.confidence = 0 ↔ r.valid = false) := by
+  rcases foldBoth_spec env cfg st raw call with ⟨tr, _, hx, _⟩ | ⟨tpre, pre, s, post, x, _, _, hr, hxv, hx, _⟩
+  · rw [hx] at h; simp at h; obtain ⟨_, rfl⟩ := h
+    simp; grind
+  · obtain ⟨d, v, hshape, _, _, _⟩ := attemptX_valid env raw s x hr hxv
+    rw [hx] at h; simp at h; obtain ⟨_, rfl⟩ := h
+    cases s <;> simp only [SuccessShape] at hshape
+    · rw [hshape]; simp; grind
+    · obtain ⟨i, _, hs⟩ := hshape; rw [hs]; simp; grind
+    · obtain ⟨cs, hs⟩ := hshape
+      have hb := lenientConfidence_bounds cs.length
+      rw [hs]; simp; grind
+    · obtain ⟨ns, hs⟩ := hshape
+      have hb := repairConfidence_bounds ns.length
+      rw [hs]; simp; grind
+
+/-! ## Which strategy decides -/
+
+/-- The result is that of the first requested strategy that succeeds: every strategy before it raised or
+    returned invalid (and left exactly one failed attempt record each, in order), the last attempt record is
+    the successful one, and if none succeeds every requested strategy failed. -/
+theorem c11_first_successful_strategy_wins (env : Env J S C) (cfg : Cfg) (st st' : Stats) (raw : Text)
+    (call : List Strategy) (r : FoldedX S C) (h : (foldX env cfg st raw call).res = .ok (st', r)) :
+    (r.valid = false ∧ ∀ s ∈ effective cfg call, Fails (attemptX env raw) (·.valid) s) ∨
+    (∃ pre s post x, effective cfg call = pre ++ s :: post ∧ (∀ s' ∈ pre, Fails (attemptX env raw) (·.valid) s') ∧
+      (attemptX env raw s).res = .ok x ∧ x.valid = true ∧ r.valid = true ∧ r.struct = x.struct ∧
+      r.attempts.map (·.strategy) = pre ++ [s] ∧ r.attempts.map (·.success) = pre.map (fun _ => false) ++ [true]) := by
+  rcases foldBoth_spec env cfg st raw call with ⟨tr, hf, hx, _⟩ | ⟨tpre, pre, s, post, x, hstrs, hf, hr, hxv, hx, _⟩
+  · rw [hx] at h; simp at h; obtain ⟨_, rfl⟩ := h
+    exact Or.inl ⟨rfl, hf⟩
+  · rw [hx] at h; simp at h; obtain ⟨_, rfl⟩ := h
+    refine Or.inr ⟨pre, s, post, x, hstrs, hf, hr, hxv, hxv, rfl, ?_, ?_⟩
+    · simp [failRec, Function.comp_def]
+    · simp [failRec, Function.comp_def]
+
+/-! ## Statistics -/
+
+/-- After any history of `fold`, `fold_enhanced` and `reset_statistics` calls on a fresh chaperone, with any
+    raw texts, any strategy lists and any library behaviour: `successful_folds` is the sum of the per-strategy
+    success counters, no strategy succeeded more often than it was attempted, and
+    `successful_folds ≤ total_folds`. -/
+theorem c11_stats_consistent (env : Env J S C) (cfg : Cfg) (ops : List Op) :
+    (runOps env cfg ops).Consistent := by
+  unfold runOps
+  have key : ∀ (ops : List Op) (st : Stats), st.Consistent → (ops.foldl (runOp env cfg) st).Consistent := by
+    intro ops
+    induction ops with
+    | nil => intro st h; exact h
+    | cons op ops ih => intro st h; exact ih _ (runOp_consistent env cfg st op h)
+  exact key ops Stats.zero ⟨rfl, fun _ => Nat.le_refl _, Nat.le_refl _⟩
+
+/-- One fold adds exactly one to `total_folds`, at most one to `successful_folds` (exactly when valid), and
+    attempts each requested strategy at most once more per occurrence. -/
+theorem c11_stats_step (env : Env J S C) (cfg : Cfg) (st st' : Stats) (raw : Text)
+    (call : List Strategy) (r : FoldedX S C) (h : (foldX env cfg st raw call).res = .ok (st', r)) :
+    st'.total = st.total + 1 ∧ st'.successful = st.successful + (if r.valid then 1 else 0) ∧
+    (∀ s, st.att s ≤ st'.att s) := by
+  rcases foldBoth_spec env cfg st raw call with ⟨tr, _, hx, _⟩ | ⟨tpre, pre, s, post, x, _, _, _, hxv, hx, _⟩
+  · rw [hx] at h; simp at h; obtain ⟨rfl, rfl⟩ := h
+    exact ⟨rfl, by simp, fun s => bumpAll_ge _ _ s⟩
+  · rw [hx] at h; simp at h; obtain ⟨rfl, rfl⟩ := h
+    exact ⟨rfl, by simp [hxv], fun s => bumpAll_ge _ _ s⟩
+
 end Operon.Chaperone
